@@ -16,7 +16,18 @@ REPO = os.environ.get('VERIF_REPO', '/repo')     # development / self-test: run 
 
 
 def repo_override():
-    return ['--config', f'paths=["{REPO}/programs/whirlpool"]'] if REPO != '/repo' else []
+    return []      # `cargo kani` rejects --config; a scratch repository is handled by a rewritten copy of the harness crate (see _scratch_kdir)
+
+
+def _scratch_kdir(kdir):
+    """self-tests against a scratch copy of the repository: copy the harness crate and point its path dependency at the scratch copy"""
+    dst = os.path.join(WORK, 'kdir_' + hashlib.sha1((REPO + kdir).encode()).hexdigest()[:8])
+    if os.path.isdir(dst): shutil.rmtree(dst, ignore_errors=True)
+    shutil.copytree(kdir, dst, ignore=shutil.ignore_patterns('target', 'Cargo.lock'))
+    ct = os.path.join(dst, 'Cargo.toml')
+    t = open(ct).read().replace('/repo/programs/whirlpool', REPO + '/programs/whirlpool')
+    open(ct, 'w').write(t)
+    return dst
 
 ANN = re.compile(r'//\s*@verif\s+(.*)')
 
@@ -38,6 +49,10 @@ class Harness:
 
     def __repr__(self):
         return f'<H {self.full} {self.tier}>'
+
+
+if REPO != '/repo':
+    KDIR = _scratch_kdir(KDIR)
 
 
 def parse_harnesses(files=None):
